@@ -1,5 +1,6 @@
 import XcpProofs.FsDefs
 import XcpProofs.FsFrame
+import XcpProofs.TreeFrame
 /-! # C03 — sources and bystander files are never modified, even by self-copies or kills
 
 Model slice: `validate` (identity-based same-file test per source), `execOp` (the same-file guard before
@@ -58,5 +59,78 @@ theorem cwd_unchanged (fs : Fs) (c : Cfg) (ops : List Op) : (execOps fs c ops).f
     cases he : execOp fs c op with
     | none => rfl
     | some fs' => exact (ih fs').trans (execOp_cwd fs fs' c op he)
+
+/-! ## Tree level: a whole invocation `xcp -r s1 … sn DEST` (hypotheses of `C02.whole_invocation_mirrors_its_sources`) -/
+
+/-- BYSTANDERS: after the whole run, every place that is not at or below a target `DEST/basename(si)` is observed exactly
+as before — `DEST` itself and its ancestors (still directories), every other entry of `DEST` at every depth, and
+everything outside `DEST` -/
+theorem whole_run_leaves_bystanders_untouched (fs : Fs) (o : Opts) (texts : GiTexts) (dest : RPath) (items : List CopySrc) (fuel : Nat)
+    (hd : o.cfg.dereference = false) (hn : o.cfg.noClobber = false) (hg : o.cfg.gitignore = false)
+    (hnt : o.cfg.noTargetDir = false)
+    (hrec : o.cfg.recursive = true) (hglob : o.glob = false)
+    (hpaths : (o.targetDir = none ∧ o.paths = items.map (·.path) ++ [dest]) ∨
+      (o.targetDir = some dest ∧ o.paths = items.map (·.path)))
+    (hne : items ≠ [])
+    (hwf : FsEq fs fs)
+    (hdest : PlainTarget fs dest) (hdd : ∃ es, fs.root.getAt dest.names = some (.dir es))
+    (hfuel : fuel < walkFuel)
+    (hsrc : ∀ e ∈ items, PlainTarget fs e.path ∧ e.path.fileName = some e.base ∧
+      fs.root.getAt e.path.names = some e.node ∧ e.node.Copyable fuel ∧ e.path.names.length + walkFuel < 256)
+    (hnd : (items.map (·.base)).Nodup)
+    (hun : ∀ e ∈ items, ∀ e' ∈ items,
+      ¬ e.path.names <+: dest.names ++ [e'.base] ∧ ¬ dest.names ++ [e'.base] <+: e.path.names)
+    (hcomp : ∀ e ∈ items, Compatible (fs.root.getAt (dest.names ++ [e.base])) e.node)
+    (hlen : dest.names.length + 1 + walkFuel < 256)
+    (fs' : Fs) (hrun : L1run fs o texts = ⟨.ok, fs'⟩)
+    (q : List Name) (hq : ∀ e ∈ items, ¬ dest.names ++ [e.base] <+: q) :
+    obsAt fs'.root q = obsAt fs.root q :=
+  bystanders_untouched fs o texts dest items fuel hd hn hg hnt hrec hglob hpaths hne hwf hdest hdd hfuel hsrc hnd hun hcomp hlen fs' hrun q hq
+
+/-- SOURCES: every source subtree is observed exactly as before, at every depth -/
+theorem whole_run_leaves_sources_untouched (fs : Fs) (o : Opts) (texts : GiTexts) (dest : RPath) (items : List CopySrc) (fuel : Nat)
+    (hd : o.cfg.dereference = false) (hn : o.cfg.noClobber = false) (hg : o.cfg.gitignore = false)
+    (hnt : o.cfg.noTargetDir = false)
+    (hrec : o.cfg.recursive = true) (hglob : o.glob = false)
+    (hpaths : (o.targetDir = none ∧ o.paths = items.map (·.path) ++ [dest]) ∨
+      (o.targetDir = some dest ∧ o.paths = items.map (·.path)))
+    (hne : items ≠ [])
+    (hwf : FsEq fs fs)
+    (hdest : PlainTarget fs dest) (hdd : ∃ es, fs.root.getAt dest.names = some (.dir es))
+    (hfuel : fuel < walkFuel)
+    (hsrc : ∀ e ∈ items, PlainTarget fs e.path ∧ e.path.fileName = some e.base ∧
+      fs.root.getAt e.path.names = some e.node ∧ e.node.Copyable fuel ∧ e.path.names.length + walkFuel < 256)
+    (hnd : (items.map (·.base)).Nodup)
+    (hun : ∀ e ∈ items, ∀ e' ∈ items,
+      ¬ e.path.names <+: dest.names ++ [e'.base] ∧ ¬ dest.names ++ [e'.base] <+: e.path.names)
+    (hcomp : ∀ e ∈ items, Compatible (fs.root.getAt (dest.names ++ [e.base])) e.node)
+    (hlen : dest.names.length + 1 + walkFuel < 256)
+    (fs' : Fs) (hrun : L1run fs o texts = ⟨.ok, fs'⟩)
+    (e : CopySrc) (he : e ∈ items) (q : List Name) :
+    obsAt fs'.root (e.path.names ++ q) = obsAt fs.root (e.path.names ++ q) :=
+  sources_untouched fs o texts dest items fuel hd hn hg hnt hrec hglob hpaths hne hwf hdest hdd hfuel hsrc hnd hun hcomp hlen fs' hrun e he q
+
+/-- … and conversely a place that IS observed differently lies at or below one of the targets -/
+theorem whole_run_changes_only_the_targets (fs : Fs) (o : Opts) (texts : GiTexts) (dest : RPath) (items : List CopySrc) (fuel : Nat)
+    (hd : o.cfg.dereference = false) (hn : o.cfg.noClobber = false) (hg : o.cfg.gitignore = false)
+    (hnt : o.cfg.noTargetDir = false)
+    (hrec : o.cfg.recursive = true) (hglob : o.glob = false)
+    (hpaths : (o.targetDir = none ∧ o.paths = items.map (·.path) ++ [dest]) ∨
+      (o.targetDir = some dest ∧ o.paths = items.map (·.path)))
+    (hne : items ≠ [])
+    (hwf : FsEq fs fs)
+    (hdest : PlainTarget fs dest) (hdd : ∃ es, fs.root.getAt dest.names = some (.dir es))
+    (hfuel : fuel < walkFuel)
+    (hsrc : ∀ e ∈ items, PlainTarget fs e.path ∧ e.path.fileName = some e.base ∧
+      fs.root.getAt e.path.names = some e.node ∧ e.node.Copyable fuel ∧ e.path.names.length + walkFuel < 256)
+    (hnd : (items.map (·.base)).Nodup)
+    (hun : ∀ e ∈ items, ∀ e' ∈ items,
+      ¬ e.path.names <+: dest.names ++ [e'.base] ∧ ¬ dest.names ++ [e'.base] <+: e.path.names)
+    (hcomp : ∀ e ∈ items, Compatible (fs.root.getAt (dest.names ++ [e.base])) e.node)
+    (hlen : dest.names.length + 1 + walkFuel < 256)
+    (fs' : Fs) (hrun : L1run fs o texts = ⟨.ok, fs'⟩)
+    (q : List Name) (hq : obsAt fs'.root q ≠ obsAt fs.root q) :
+    ∃ e ∈ items, dest.names ++ [e.base] <+: q :=
+  only_the_targets_change fs o texts dest items fuel hd hn hg hnt hrec hglob hpaths hne hwf hdest hdd hfuel hsrc hnd hun hcomp hlen fs' hrun q hq
 
 end Xcp.C03
